@@ -156,7 +156,13 @@ func runMustPass(id string) *mustPassResult {
 			hit := false
 			for _, l := range strings.Split(string(data), "\n") {
 				if strings.HasPrefix(l, "+++ b/") || strings.HasPrefix(l, "--- a/") {
-					if dirs[filepath.Dir(strings.TrimSpace(l[6:]))] {
+					f := strings.TrimSpace(l[6:])
+					if len(mustPassFiles) > 0 {
+						// a new file in a package of the property counts too (a helper moved out of a listed function)
+						if mustPassFiles[f] || (strings.HasPrefix(l, "+++ b/") && dirs[filepath.Dir(f)] && !fileExists(filepath.Join(repoRoot, f))) {
+							hit = true
+						}
+					} else if dirs[filepath.Dir(f)] {
 						hit = true
 					}
 				}
@@ -232,6 +238,10 @@ func runMustPass(id string) *mustPassResult {
 	}
 	return res
 }
+
+var mustPassFiles map[string]bool
+
+func fileExists(p string) bool { _, err := os.Stat(p); return err == nil }
 
 // propertyDirs: the package directories of the functions listed for a property (nil = unknown, run everything).
 func propertyDirs(id string) map[string]bool {
